@@ -148,6 +148,23 @@ CLAIMED = {
              "rename-behaviour oracle over adversarial programs (shadowing, kw-only parameters, global/nonlocal, generated-name collisions).",
         technique="Lean 4 proof (scanner model, case analysis, decide) + differential correspondence + execution oracle for the renaming rules",
     ),
+    "C07": dict(
+        text="Machine-checked proof over the guard logic: the safe-mode set contains every top-level def/class, every collected top-level assignment target, every "
+             "Class.method pair and the caller's names, and a guarded rule touches no name of the set; the surface statement is false for class members looked up by "
+             "bare name (witness theorem; replayed, known findings for class members and starred/list targets). 3 theorems.",
+        design="4/C07",
+        note="Trusted: Lean kernel; Preserve.lean tied by suite safeset (the set really handed to the rules, captured from the harness); that every rule consults "
+             "preserve is examined by the surface oracle on library-like modules and the corpus.",
+        technique="Lean 4 proof (set membership / guard) + differential correspondence of the captured preserve set + surface-name oracle",
+    ),
+    "C08": dict(
+        text="Machine-checked proof of the guard and of the preserve-set plumbing: a guarded rule touches no preserved name; a name used by a preserved file of another "
+             "namespace (referenced import or any attribute) is in the set handed to the library file; only the file's own namespace is excluded. 4 theorems.",
+        design="4/C08",
+        note="Trusted: Lean kernel; Preserve.lean tied by suites usednames (_used_names_in_file) and filepreserve (set captured per target file through the real "
+             "format_files / pool); the unused-analyses are not modelled; oracles: preserved names still defined, CLI --preserve keeps clients working.",
+        technique="Lean 4 proof (membership) + differential correspondence through the real format_files + client-execution oracle",
+    ),
 }
 
 NOT_YET = {}
